@@ -21,7 +21,7 @@ from vlib import core
 from models import c14_driver as M
 
 LEVEL = "fault_enumeration"
-BUDGET = {"quick": 240, "thorough": 1500}
+BUDGET = {"quick": 300, "thorough": 1800}
 
 FAULTS = {"quick": ["exit1", "exit3", "segv", "kill", "noexec", "partial"],
           "thorough": ["exit1", "exit3", "segv", "kill", "noexec", "partial"]}
@@ -854,10 +854,21 @@ def run(ctx):
                 sched_viol.append((scen, fa, sch, dv, detail))
     if jobs and len(eff_seen) < 20:
         raise core.HarnessError("vacuous schedule exploration: %d distinct effective schedules" % len(eff_seen))
-    confirmed_sig = {}
+    plan = dict(SCEN_PLAN[ctx.tier])
+    fsets = {}
     for scen, fa, sch, dv, detail in sched_viol:
-        f = next(iter(fa.values())) if fa else None
-        sig = "C14|concurrent|%s|fault=%s|%s" % (scen, fault_class(f), dv)
+        fsets.setdefault((scen, dv), set()).add(fault_class(next(iter(fa.values())) if fa else None))
+
+    def compress2(scen, fcs):
+        per = {}
+        for fc in fcs:
+            k, _, how = fc.partition(":")
+            per.setdefault(k, set()).add(how)
+        return ",".join(k if k == "none" else "%s:%s" % (k, "*" if per[k] >= set(plan[scen]) else "+".join(sorted(per[k])))
+                        for k in sorted(per))
+    confirmed_sig = {}
+    for scen, fa, sch, dv, detail in sorted(sched_viol, key=lambda t: (t[0], t[3], bool(t[1]), str(sorted(t[1].items())), t[2])):
+        sig = "C14|concurrent|%s|scenario=%s|fault=%s" % (dv, scen, compress2(scen, fsets[(scen, dv)]))
         if sig not in confirmed_sig:
             # same schedule must fail twice, the second time with nothing else running
             again = _sched_batch((cfg, scen, fa, [sch], False, 99999))
@@ -867,8 +878,11 @@ def run(ctx):
         if not confirmed_sig[sig]:
             continue
         case = {"part": 2, "scenario": scen, "faults": {str(k): list(v) for k, v in fa.items()}, "schedule": list(sch), "deviation": dv}
-        ctx.violation(sig, "scenario %s, schedule %s, fault %s -> %s: %s" % (scen, "".join(map(str, sch)), fa or "none", dv, detail),
-                      files={"case.json": json.dumps(case, indent=1)}, replay=REPLAY)
+        desc = "scenario %s: drivers %s in one directory, step schedule %s (driver index per granted step), fault %s -> %s: %s" % (
+            scen, " || ".join("chibicc " + " ".join(c) for c in SCENARIOS[scen][1]), "".join(map(str, sch)),
+            {k: "%s#%d:%s" % tuple(v) for k, v in fa.items()} or "none", dv, detail)
+        ctx.violation(sig, desc, files={"case.json": json.dumps(case, indent=1), "README.txt": desc + "\n\nreplay: CHIBICC=<binary> "
+                                        "CHIBICC_DIR=<tree> python3 checks/c14.py --replay-case case.json\n"}, replay=REPLAY)
     ctx.cover(schedules=sched_runs, schedules_distinct_effective=len(eff_seen), schedule_scenarios=len(SCEN_PLAN[ctx.tier]))
     ctx.cover(evaluations=sched_runs)
     ctx.cover(rule="a case is one driver invocation (shape x fault point) or one complete schedule; non-trivial = the "
